@@ -404,6 +404,11 @@ class Exec:
             if spec is None: raise Unsupported(f'loop over unknown iterable without invariant at line {st.lineno}')
             mk_elem = lambda k: (VUnk('elem'), [])
             length = None
+        elif isinstance(it, VRef) and it.cls == 'list' and p.cell(it.oid).get('objlist') and spec is not None and spec.elem is not None:
+            # a list of opaque objects of symbolic length: the contract describes the k-th element (fields as functions of the index)
+            cell = p.cell(it.oid)
+            mk_elem = lambda k, path: spec.elem(S, k, self, cell, path)
+            length = cell['len']
         elif isinstance(it, VRange):
             mk_elem = lambda k: (VInt(k), [k < it.n.t])
             length = it.n.t
@@ -471,10 +476,10 @@ class Exec:
         # --- 2. arbitrary iteration
         k = fresh(I, 'iter')
         q = havoc(p)
-        alts = mk_elem(k)
+        alts = mk_elem(k, q) if (isinstance(it, VRef) and p.cell(it.oid).get('objlist')) else mk_elem(k)
         if not isinstance(alts, list): alts = [alts]
         q0 = q
-        q0.pc = q0.pc + [k >= 0] + ([k < length] if length is not None and isinstance(it, VEnum) else []) + [g for _, g in _inv_parts(spec.inv(S, fr.argns, Namespace(q0.env, q0), k))]
+        q0.pc = q0.pc + [k >= 0] + ([k < length] if length is not None and (isinstance(it, VEnum) or (isinstance(it, VRef) and p.cell(it.oid).get('objlist'))) else []) + [g for _, g in _inv_parts(spec.inv(S, fr.argns, Namespace(q0.env, q0), k))]
         outs = []
         for elem, facts in alts:
             q = q0.fork(); q.pc = q.pc + facts
